@@ -120,6 +120,15 @@ def schedStep (l : Lambdas) (p : Params) (steps : Nat) (arg : Option Nat) : Para
     kl := match l.kl with | some f => p.kl * f s | none => p.kl
     lr := match l.lr with | some f => p.lr * f s | none => p.lr }
 
+/-- a sequence of scheduler calls: `(preconditioner step count at the call, explicit step?)`;
+    returns the parameters after every call -/
+def schedTrace (l : Lambdas) : Params → List (Nat × Option Nat) → List Params
+  | _, [] => []
+  | p, (steps, arg) :: t => let p' := schedStep l p steps arg; p' :: schedTrace l p' t
+
+def schedRun (l : Lambdas) (p : Params) (calls : List (Nat × Option Nat)) : Params :=
+  calls.foldl (fun p c => schedStep l p c.1 c.2) p
+
 /-- constructor check: a scheduled parameter must not already be callable.
     `callable` lists, per parameter, whether the preconditioner holds a function. -/
 def ctorOk (scheduled callable : List Bool) : Bool :=
@@ -174,5 +183,19 @@ def step (t : Table) : Op → Table
   | .clear => []
 
 def run (t : Table) (ops : List Op) : Table := ops.foldl step t
+
+/-- outcome of the wrapped function -/
+inductive Outcome (α ε : Type) where
+  | ret (v : α)
+  | raise (e : ε)
+deriving Repr
+
+/-- the `func_timer` wrapper: runs the function (outcome `o`, duration `dt`), records a sample
+    only when it returned, and hands the outcome through unchanged -/
+def tracedCall {α ε : Type} (t : Table) (name : String) (dt : Rat) (o : Outcome α ε) :
+    Table × Outcome α ε :=
+  match o with
+  | .ret v => (record t name dt, .ret v)
+  | .raise e => (t, .raise e)
 
 end KV.Trace
